@@ -52,7 +52,9 @@ func (h *NTLMAuth) Authenticate(message *auth.NtlmRequest) (*auth.NtlmResponse, 
 	c := h.getContext(message.Session)
 	err := c.Authenticate(message.NtlmMessage, r)
 
-	if err != nil || r.Authenticated {
+	// the context only lives while a challenge is outstanding: every authenticate
+	// attempt, successful or not, ends the exchange and the next one needs a new challenge
+	if err != nil || r.NtlmMessage == "" {
 		h.removeContext(message.Session)
 	}
 
